@@ -1530,7 +1530,7 @@ func runRange(scratch string, from, to int, skipFile string, maxStack int, stall
 const reducedStack = 8 << 20 // child stack limit of the probe stage
 
 func runCyclic(r *vf.Run, scratch string) {
-	ncases := vf.N(400, 8000)
+	ncases := vf.N(400, 4000)
 	cases := make([]cycCase, ncases)
 	for i := range cases {
 		cases[i] = genCyc(cycRNG(i), i)
@@ -1659,7 +1659,7 @@ func runCyclic(r *vf.Run, scratch string) {
 	os.WriteFile(skipFile, []byte(strings.Join(sk, "\n")), 0o644)
 
 	// C. bulk
-	const workers = 4
+	const workers = 6
 	per := (nitems + workers - 1) / workers
 	notRunTotal := 0
 	vf.Parallel(workers, workers, func(w int) {
